@@ -348,7 +348,6 @@ pub fn get_best_move_entry(
     }
 
     let mut killer_moves = [None; MAX_SEARCH_DEPTH as usize];
-    let mut best_move = None;
     let mut best_score = Score::MIN + 1;
 
     // Prevent threefold repetition
@@ -373,6 +372,10 @@ pub fn get_best_move_entry(
 
     let pv_move = table.get(&game.hash()).and_then(|entry| entry.pv);
     moves.sort_by_cached_key(|a| move_score(*a, pv_move, None, history));
+
+    // A position with legal moves always has an answer: when every move scores as low as
+    // the initial bound (all of them run into cached forced mates) none of them beats it
+    let mut best_move = moves.first().copied();
 
     for (index, &_move) in moves.iter().enumerate() {
         if index <= 2 {
